@@ -215,12 +215,12 @@ theorem applyAllH_spec (as : List Adapter) (H : Heap) (w : Nat) (path : Str) (d 
 
 /-- the result of a request, computed without the heap of header objects -/
 def requestPure (H : Heap) (c : Nat) (args : Args) : Except Err Sent :=
-  match connView H c, optDict H args.headers, optParams H args.params with
-  | some (_, impl, as), some hd, some pd =>
+  match connView H c, optDict H args.headers, optParams H args.params, optData H args.data with
+  | some (_, impl, as), some hd, some pd, some body =>
     match applyAll as { path := args.path, headers := copyHeaders hd } with
     | .error e => .error e
-    | .ok ra => .ok (assemble impl ra args.method pd args.data (respFold as (decodeResp args.raw args.resp)))
-  | _, _, _ => .error .keyError
+    | .ok ra => .ok (assemble impl ra args.method pd body (respFold as (decodeResp args.raw args.resp)))
+  | _, _, _, _ => .error .keyError
 
 /-- everything a request does to the heap -/
 structure ReqEffect (H H' : Heap) : Prop where
@@ -229,6 +229,7 @@ structure ReqEffect (H H' : Heap) : Prop where
   userDicts : H'.userDicts = H.userDicts
   conns : H'.conns = H.conns
   callers : H'.callers = H.callers
+  datas : H'.datas = H.datas
   dicts : H'.dicts = H.dicts ∨ ∃ d', H'.dicts = H.dicts ++ [d']
   impls : H'.impls = H.impls ∨
     ∃ r imp, H.impls[r]? = some imp ∧ H'.impls = H.impls.set r { imp with ctr := imp.ctr + 1 }
@@ -245,7 +246,7 @@ theorem connView_impl {H : Heap} {c : Nat} {cn : Conn} {impl : Impl} {as : List 
 theorem request_spec (H : Heap) (c : Nat) (args : Args) :
     (request H c args).2 = requestPure H c args ∧ ReqEffect H (request H c args).1 ∧
     ((∃ e, (request H c args).2 = .error e) → (request H c args).1.impls = H.impls) := by
-  have same : ReqEffect H H := ⟨rfl, rfl, rfl, rfl, rfl, Or.inl rfl, Or.inl rfl⟩
+  have same : ReqEffect H H := ⟨rfl, rfl, rfl, rfl, rfl, rfl, Or.inl rfl, Or.inl rfl⟩
   unfold request requestPure
   cases hv : connView H c with
   | none => exact ⟨rfl, same, fun _ => rfl⟩
@@ -257,6 +258,9 @@ theorem request_spec (H : Heap) (c : Nat) (args : Args) :
       cases hp : optParams H args.params with
       | none => exact ⟨rfl, same, fun _ => rfl⟩
       | some pd =>
+       cases hb : optData H args.data with
+       | none => exact ⟨rfl, same, fun _ => rfl⟩
+       | some body =>
         simp only []
         have hw : ({ H with dicts := H.dicts ++ [copyHeaders hd] } : Heap).dicts[H.dicts.length]? =
             some (copyHeaders hd) := by simp
@@ -267,7 +271,7 @@ theorem request_spec (H : Heap) (c : Nat) (args : Args) :
           rw [ha] at hs
           obtain ⟨d', hs⟩ := hs
           simp only [hs]
-          refine ⟨?_, ⟨?_, ?_, ?_, ?_, ?_, Or.inr ⟨d', ?_⟩, Or.inl ?_⟩, fun _ => ?_⟩ <;> first | rfl | simp
+          refine ⟨?_, ⟨?_, ?_, ?_, ?_, ?_, ?_, Or.inr ⟨d', ?_⟩, Or.inl ?_⟩, fun _ => ?_⟩ <;> first | rfl | simp
         | ok ra =>
           rw [ha] at hs
           simp only [hs]
@@ -276,15 +280,15 @@ theorem request_spec (H : Heap) (c : Nat) (args : Args) :
           simp only [hget]
           have era : ({ path := ra.path, headers := ra.headers } : RA) = ra := rfl
           rw [era]
-          cases hg : (assemble impl ra args.method pd args.data
+          cases hg : (assemble impl ra args.method pd body
               (respFold as (decodeResp args.raw args.resp))).genId with
           | none =>
             simp only []
-            refine ⟨?_, ⟨?_, ?_, ?_, ?_, ?_, Or.inr ⟨finalHeaders impl ra args.data, ?_⟩, Or.inl ?_⟩, ?_⟩
+            refine ⟨?_, ⟨?_, ?_, ?_, ?_, ?_, ?_, Or.inr ⟨finalHeaders impl ra body, ?_⟩, Or.inl ?_⟩, ?_⟩
             all_goals first | rfl | simp
           | some g =>
             simp only []
-            refine ⟨?_, ⟨?_, ?_, ?_, ?_, ?_, Or.inr ⟨finalHeaders impl ra args.data, ?_⟩,
+            refine ⟨?_, ⟨?_, ?_, ?_, ?_, ?_, ?_, Or.inr ⟨finalHeaders impl ra body, ?_⟩,
               Or.inr ⟨cn.impl, impl, connView_impl hv, ?_⟩⟩, ?_⟩
             all_goals first | rfl | simp
 
@@ -488,6 +492,7 @@ theorem step_inv {H : Heap} (hi : Inv H) (op : Op) : Inv (step H op).1 := by
     · split
       · exact hi.setList _ _
       · exact hi
+  | newData v => exact ⟨hi.conn_ok, hi.conn_inj, hi.user_ok, hi.caller_ok⟩
   | newParams d =>
     simp only [step]
     split
@@ -676,6 +681,7 @@ theorem step_view {H : Heap} (hi : Inv H) {c : Nat} (hc : c < H.conns.length) (o
         intro cn hcn heq
         exact hne (hi.conn_inj c' c cn' cn hcn' hcn heq.symm)
       · rfl
+  | newData v => rfl
   | newParams d => simp only [step]; split <;> rfl
   | newClass bases mro pmap own dlg => simp only [step]; split <;> rfl
   | newCaller t cls =>
